@@ -526,7 +526,7 @@ def rule_alignment(chk):
     exactly once, with i itself or with the value displaced from the slot that received i"""
     t = M.cy(PA)
     cls = M.find_class(t, 'ParticleArray')
-    fn = M.find_func(cls, 'align_particles')
+    fn = M.data_aliases_inlined(M.find_func(cls, 'align_particles'))          # `p = index_array.data; p[i] = ...` is `index_array.data[i] = ...`
     who = 'ParticleArray.align_particles'
     loops = [l for l in ast.walk(fn) if isinstance(l, ast.For) and any(isinstance(a, ast.Assign) and isinstance(a.targets[0], ast.Subscript) and
                                                                        compact(a.targets[0].value) == 'index_array.data' for a in ast.walk(l))]
